@@ -249,6 +249,7 @@ async fn one_case(report: &Report, seed: u64, idx: u64) {
         }
     }
     let mut findings = sc.findings.clone();
+    reclassify_key_index_merge(&out, &mut findings);
     if findings.is_empty() {
         let (f, n) = aftermath(&out, &sc).await;
         report.count("aftermath_rows_compared", n);
@@ -299,10 +300,11 @@ pub fn run(args: &Args) -> i32 {
         args,
         "exploration",
         "seeded histories of 2-4 concurrent public-API operations (15 kinds) on handles at same/different read versions x schedule {every actor order, uniform, PCT, round robin}; non-trivial iff an op committed over a concurrent transaction or failed with a conflict; distinct = hash(ops, read versions, results, released storage-call sequence)",
-        (50, 900),
+        (75, 900),
     )
     .with_min_nontrivial(50);
-    let max_cases = args.tier.pick(3_000, 200_000);
+    // quick: fixed case set per seed; the budget is only a safety cap
+    let max_cases = args.tier.pick(2_000, 200_000);
     let seed = args.seed;
     if let Some(path) = &args.replay {
         let txt = std::fs::read_to_string(path).unwrap_or_default();
